@@ -33,6 +33,9 @@ CHECKS = {
  "C17": ("model_checking", "explicit-state search (stateright BFS+DFS) of the real Matrix against a dense reference model",
          "All reachable (matrix, reference) states from every public constructor under writes, scalar ops and binary ops up to the stated depth for sizes 1..8 are visited; every transition compares all entries with a dense reference. Right level: storage/band index arithmetic fails only for particular (ml,mu,size,operand) combinations, which the search enumerates completely.",
          "trusts stateright's visited-set search (cross-checked by running BFS and DFS and comparing unique-state counts) and the dense reference model in harness/src/c17.rs", "DESIGN.md §3 C17", "E3"),
+ "C19": ("model_checking", "deviation-bounded exploration of SolOut answer histories (stateless DFS over callback indices) with a protocol automaton",
+         "The default answer Continue is deviated to Interrupt / ModifiedSolution(unchanged) / ModifiedSolution(doubled) at every callback index of the actual run of each of the six low-level solvers, three problems, both directions; all histories with <= 2 (quick) / 3 (thorough) deviations are executed and checked against the protocol automaton and the all-Continue baseline (bit-identical no-op, exact doubling where IEEE scaling is exact).",
+         "exact doubling demanded only for explicit methods on the linear homogeneous problem with atol=0; the environment is sealed at Interrupt so any later ode/jac/events call is counted", "DESIGN.md §3 C19", "E2"),
 }
 PENDING_REASON = "check not yet implemented in this revision of /verif (see DESIGN.md §6 for the order of work); not claimed until its machinery exists"
 
